@@ -8,7 +8,14 @@ Oracle on the real code (per event, both modes, both caller behaviours):
 
 Correspondence: the per-event results of each real strategy vs gdrv `C17 trace`, the `supports`
 verdicts and the strategy chosen by Path.__init__ vs `C17 can`, SimplePathStrategy's fragments
-and KMP tables vs `C17 frags`.
+and KMP tables vs `C17 frags`, and "is the path in the scope of simple_eq_generic_fragments_partial"
+(`C17 inscope`: FragsOk of its fragment list, the path is the path of that list) and of
+simple_eq_generic_spellings_partial (every step supported, none on the attribute axis) vs the same
+read off the real parsed path (supported, fragments not None, no attribute step, no `self::` step
+after the first / supported, no attribute step).  Every strategy class is forced on every path it `supports` (not only the one
+Path.__init__ picks).  `dist` counts how many SimplePathStrategy paths have >= 2 fragments, failure
+tables with a non-zero entry, and documents on which the KMP loop actually falls back to a
+non-zero table entry.
 
 A case is {"doc": tree, "path": text, "kind": "strategies" | "selfprefix" | "truepred" | "union"}.
 """
@@ -232,6 +239,11 @@ def gen_case(rng):
     case = {'doc': doc}
     if rng.random() < 0.15:
         case['ns_events'] = True
+    if rng.random() < 0.14:
+        # aimed at SimplePathStrategy's hand-over between fragments and its KMP fall-back
+        doc, text = G.rand_fragcase(rng)
+        case.update(doc=doc, kind='strategies', path=text)
+        return case
     if r < 0.6:
         profile = rng.choice([G.SIMPLE, G.SIMPLE, G.STRUCT, G.FULL])
         if rng.random() < 0.5:
@@ -280,6 +292,87 @@ def dump_frags(text):
     return out
 
 
+def real_scope(text):
+    """what `C17 inscope` must answer, read off the real parsed paths"""
+    from genshi import path as P
+    out = [Atom('ok')]
+    for p in P.PathParser(text).parse():
+        if not P.SimplePathStrategy.supports(p):
+            out.append(N)
+            continue
+        has_attr = any(st[0] is P.ATTRIBUTE for st in p)
+        if P.SimplePathStrategy(p).fragments is None:
+            out.append([Atom('none'), B(not has_attr)])
+            continue
+        inner_self = any(st[0] is P.SELF for st in p[1:])
+        out.append([B(not has_attr), B(not has_attr and not inner_self), B(not has_attr)])
+    return out
+
+
+def _sym_matches(test, node):
+    """does a SimplePathStrategy node test (name / text() / comment()) accept a document node"""
+    n = type(test).__name__
+    if n == 'LocalNameTest':
+        return 'e' in node and node['e'][1] == test.name
+    if n == 'TextNodeTest':
+        return 't' in node
+    if n == 'CommentNodeTest':
+        return 'c' in node
+    return False
+
+
+def kmp_fallbacks(frag, pi, doc):
+    """number of (root-to-node chain, position) pairs at which the KMP loop over `frag` falls back to a
+    NON-ZERO table entry — an independent re-run of the textbook loop over every chain of `doc`"""
+    count = [0]
+
+    def walk(node, p):
+        while p > 0 and (p >= len(frag) or not _sym_matches(frag[p], node)):
+            p = pi[p - 1]
+            if p > 0:
+                count[0] += 1
+        if p < len(frag) and _sym_matches(frag[p], node):
+            p += 1
+        for k in node.get('k', []):
+            walk(k, p)
+
+    walk(doc, 0)
+    return count[0]
+
+
+def frag_stats(text, doc, res):
+    """distribution counters for the SimplePathStrategy side of a case"""
+    from genshi import path as P
+    try:
+        paths = P.PathParser(text).parse()
+    except Exception:  # noqa
+        return
+    for p in paths:
+        if not P.SimplePathStrategy.supports(p):
+            continue
+        res.count('simple:supported')
+        fr = P.SimplePathStrategy(p).fragments
+        if fr is None:
+            res.count('simple:fragments-None')
+            continue
+        ne = [f for f in fr if f[0]]
+        res.count('simple:fragments=%d' % min(len(ne), 4))
+        if len(ne) >= 2:
+            res.count('simple:multi-fragment')
+        if any(f[2] is not None for f in fr):
+            res.count('simple:attr-end')
+        if any(st[0] is P.SELF for st in p[1:]):
+            res.count('simple:inner-self')
+        if any(x > 0 for f in fr for x in f[1]):
+            res.count('simple:pi-nonzero')
+        kmp = [f for i, f in enumerate(fr) if f[0] and (i > 0)]
+        fb = sum(kmp_fallbacks(f[0], f[1], doc) for f in kmp)
+        if fb:
+            res.count('simple:kmp-fallback-nonzero')
+            if len(ne) >= 2:
+                res.count('simple:multi-fragment+kmp-fallback-nonzero')
+
+
 def check_cases(cases, res):
     from genshi import path as P
     lines, plan = [], []
@@ -315,6 +408,15 @@ def check_cases(cases, res):
             fr = dump_frags(text)
             if all(x is not None for x in fr):
                 ask('frags', i, proto.line(Atom('C17'), Atom('frags'), text), fr)
+            sc = real_scope(text)
+            ask('inscope', i, proto.line(Atom('C17'), Atom('inscope'), text), sc)
+            for x in sc[1:]:
+                if isinstance(x, list):
+                    res.count('simple:in-fragment-theorem-scope' if x[:2] == [B(True), B(True)]
+                              else 'simple:outside-fragment-theorem-scope')
+                    res.count('simple:in-spelling-theorem-scope' if x[-1] == B(True)
+                              else 'simple:outside-spelling-theorem-scope')
+            frag_stats(text, case['doc'], res)
             hit = False
             for ic, skip in modes():
                 for s in STRATS + ('auto',):
